@@ -551,6 +551,17 @@ func runCloneRules(r *Run, clones []cloneFn, rulePrefix string, aliasMode int, s
 					ok = true
 				}
 				nFields++
+				if !ok && rulePrefix == "clone" {
+					if why := notDocumentContent(p, g.T, fv); why != "" {
+						// scratch buffers, memoised read results and options of the Document object are not
+						// content of the document: a derived document need not carry them
+						if !seenT[key] {
+							r.Trivial(rulePrefix+"-cover", key, g.FirstPos, true, "not copied, and need not be: "+why)
+							seenT[key] = true
+						}
+						continue
+					}
+				}
 				if !seenT[key] || !ok {
 					r.Check(rulePrefix+"-cover", key, posOr(g.Fields[fv], g.FirstPos), ok,
 						fmt.Sprintf("%s constructs a %s (at %s) but never sets field %s from the source: the copy loses it", fname, typeName(g.T), p.pos(g.FirstPos), fv.Name()))
@@ -951,4 +962,87 @@ func ruleCloneAliasFor(owners ...string) func(r *Run) {
 		r.Count("clone_alias_obligations", n)
 		r.Count("template_clone_functions", probe.Analysed["template_clone_functions"])
 	}
+}
+
+// documentContentFields: the fields of document.Document confirmed (by reading cloneDocument and
+// the code that uses each field) to carry document content or the counters/registries from which
+// later additions take their ids.  Any field of Document added later is judged by
+// notDocumentContent.
+var documentContentFields = map[string]string{
+	"Body":                  "the body element list",
+	"relationships":         "package relationships",
+	"documentRelationships": "relationships of the main part",
+	"contentTypes":          "content-type table",
+	"styleManager":          "style registry",
+	"parts":                 "raw parts",
+	"nextImageID":           "counter the next media name and picture id are taken from",
+	"footnoteManager":       "note registry (ids of later notes)",
+	"numberingManager":      "numbering registry (ids of later lists)",
+}
+
+var notContentCache = map[*types.Var]string{}
+
+// notDocumentContent decides whether a field of the root Document object that a clone function
+// leaves unset is document content.  It is content when it is in the confirmed table, or when it
+// is used both while serialising (functions reachable from Save/ToBytes) and outside of it — then
+// what was done to the document before decides what is written.  A field used only while
+// serialising is scratch space of the serialiser; a field never used while serialising (a memoised
+// getter result, an option consulted by later editing calls) does not change what the derived
+// document saves.  Returns the reason for "not content", or "" when the field must be copied.
+func notDocumentContent(p *Program, owner *types.Named, fv *types.Var) string {
+	doc := p.Named(pkgDoc, "Document")
+	if doc == nil || owner != doc {
+		return ""
+	}
+	if _, ok := documentContentFields[fv.Name()]; ok {
+		return ""
+	}
+	if why, ok := notContentCache[fv]; ok {
+		return why
+	}
+	var roots []*ssa.Function
+	for _, n := range []string{"(*Document).Save", "(*Document).ToBytes"} {
+		if f := p.Func(pkgDoc, n); f != nil {
+			roots = append(roots, f)
+		}
+	}
+	why := ""
+	if len(roots) == 2 {
+		region := p.staticReach(roots...)
+		inside, outside := 0, 0
+		for _, fn := range p.ModFuncs() {
+			if fn.Name() == "New" || strings.HasPrefix(fn.Name(), "clone") {
+				continue // constructors and clone functions initialise/copy, they do not use the field
+			}
+			allInstrs(fn, func(in ssa.Instruction) {
+				var got *types.Var
+				switch x := in.(type) {
+				case *ssa.FieldAddr:
+					got, _ = fieldOfAddr(x)
+				case *ssa.Field:
+					got, _ = fieldOfVal(x)
+				}
+				if got != fv {
+					return
+				}
+				top := fn
+				for top.Parent() != nil {
+					top = top.Parent()
+				}
+				if region[top] {
+					inside++
+				} else {
+					outside++
+				}
+			})
+		}
+		switch {
+		case inside == 0:
+			why = fmt.Sprintf("Document.%s is never used while serialising (Save/ToBytes and what they call): it does not influence what a derived document writes", fv.Name())
+		case outside == 0:
+			why = fmt.Sprintf("Document.%s is used only while serialising: scratch state of Save/ToBytes", fv.Name())
+		}
+	}
+	notContentCache[fv] = why
+	return why
 }
